@@ -36,6 +36,24 @@ partial def ofJV : JV → Json
   | .arr xs => .arr #[.str "a", .arr (xs.map ofJV).toArray]
   | .obj kvs => .arr #[.str "o", .arr (kvs.map fun (k, v) => Json.arr #[.str k, ofJV v]).toArray]
 
+/-- A plain JSON number as a scaled integer (n/1024), when it is exactly representable. -/
+def scaledOfNum (n : JsonNumber) : Option Int :=
+  let den : Nat := 10 ^ n.exponent
+  let num := n.mantissa * 1024
+  if num % (den : Int) == 0 then some (num / (den : Int)) else none
+
+/-- Plain (untagged) JSON → JV, as protojson prints `google.protobuf.Value`/`Struct`.
+    Object keys are sorted; `none` when a number is not a multiple of 1/1024. -/
+partial def plainToJV? : Json → Option JV
+  | .null => some .null
+  | .bool b => some (.bool b)
+  | .num n => (scaledOfNum n).map .num
+  | .str s => some (.str s)
+  | .arr xs => do pure (.arr (← xs.toList.mapM plainToJV?))
+  | .obj kvs => do
+      let ys ← kvs.toList.mapM fun (k, v) => do let w ← plainToJV? v; pure (k, w)
+      pure (.obj (ys.mergeSort (fun a b => a.1 ≤ b.1)))
+
 def str? (j : Json) (k : String) : Option String :=
   match j.getObjVal? k with
   | .ok (.str s) => some s
